@@ -1,6 +1,6 @@
 (* C05 — no residue: theorems.  Part 1 is function-level (no reachability needed). *)
 From Coq Require Import ZArith Lia.
-From AV Require Import Base Machine ScopeFrames DeliverInv TreeInv DeliverAlive PotentialInv TreeStep.
+From AV Require Import Base Machine ScopeFrames DeliverInv TreeInv DeliverAlive PotentialInv TreeStep KernelInv DeliverThms.
 
 (* ---------------- scope_ptr_restored ---------------- *)
 Lemma scopes_upd_scope s c g x :
@@ -388,3 +388,15 @@ Example ex5_middle :
   let s := final step init (firstn 6 ex5_ops) in
   k_ncancel (tasks s 1) = 1 /\ pending_of s 1 = 1 /\ phi s 1 = 0%Z.
 Proof. vm_compute. repeat split. Qed.
+
+(* ---------------- the loop goes idle (partial) ----------------
+   Once every task is done no delivery callback keeps itself alive: whichever one runs finds nobody to reach and
+   clears its handle.  (Not proved: the bound on the number of remaining callbacks and the statement about
+   timers.) *)
+Theorem loop_goes_idle_partial s c :
+  reach_ok s -> (forall t, k_done (tasks s t) <> None) -> In (HDeliver c) (ready s) ->
+  s_chandle (scopes (fst (step s (ARun (HDeliver c)))) c) = false.
+Proof.
+  intros R Hd Hin. destruct (deliver_cancels_reach s c R Hin) as [_ [_ [Hno _]]]. apply Hno.
+  intros [t [D _]]. now apply (Hd t).
+Qed.
